@@ -90,7 +90,10 @@ type Type struct {
 	// of the batch has the same package path and the same name, though they are distinct
 	// types); it has no fields of its own and gets its behaviour (role "", "runner" or
 	// "closer", a custom name) from an embedded base struct. Its instances need custom names.
-	Local  bool      `json:"local,omitempty"`
+	Local bool `json:"local,omitempty"`
+	// Mixin (with Local): the type also embeds a function-local struct named "Mixin" - "empty":
+	// without fields; "log": with an exported logger-tagged field `Log` (Logger is set too).
+	Mixin  string    `json:"mixin,omitempty"`
 	Points []*Point  `json:"points,omitempty"`
 	Frame  []*Frame  `json:"frame,omitempty"`
 	Config []*Conf   `json:"config,omitempty"`
